@@ -12,7 +12,9 @@
 
    Each region touches shared objects:
 
-     pre      client encode / raw request, mux lookup      mux tables: read (written only while mounting)
+     pre      client encode / raw request, the middleware  mux tables: read (written only while mounting)
+              chain (request id, trace, debug, log), mux     the trace middleware's sampler: rate adjustment under its mutex
+              lookup                                         [deviation sampler.adjust_unlocked: no mutex]
      decode   body/param decoding, validation               pattern cache: read/write under its RWMutex
                                                             the request decoder of the request's content type
      service  user code: reads the decoded payload           (the stub: per-request state only)
@@ -67,10 +69,14 @@ Region(p) == IF pos[p] = 0 THEN "pre" ELSE
              CASE g = "decode" -> "decode" [] g = "invoke" -> "service" [] g = "encode" -> "encode"
 
 Pooled == "decoder.pooled_buffer_aliased" \in Deviations
+SamplerLock == IF "sampler.adjust_unlocked" \in Deviations THEN "none" ELSE "samplerLock"
 Acc(v, m, l) == [var |-> v, mode |-> m, lock |-> l]
 Accesses(p) ==
   IF at[p] # "run" THEN {} ELSE
-  CASE Region(p) = "pre"     -> {Acc("mux", "r", "none")}
+  CASE Region(p) = "pre"     -> {Acc("mux", "r", "none"),
+                                 \* the middlewares mounted in front of the handlers are created once: the trace middleware's
+                                 \* adaptive sampler adjusts its rate (reads and writes `start`) under its mutex (Sampler.tla)
+                                 Acc("samplerStart", "r", SamplerLock), Acc("samplerStart", "w", SamplerLock)}
     [] Region(p) = "decode"  -> {Acc("patterns", "r", "patternsLock"), Acc("patterns", "w", "patternsLock")} \cup
                                 (IF Pooled /\ req[p].codec = "text" THEN {Acc("textbuf", "w", "none")} ELSE {})
     [] Region(p) = "service" -> IF ref[p] = "pool" THEN {Acc("textbuf", "r", "none")} ELSE {}
